@@ -186,6 +186,29 @@ MUTANTS += [
     ("c05-unresolved-attr", ["C05"], [(DN, "            return self._log_z.new_zeros(self._shape)", "            return self._log_z.new_zeros(self._event_shape)")], "RES-1"),
 ]
 
+TB = T + "base.py"
+MUTANTS += [
+    # ---- C08 ----
+    ("c08-cascade-drop-logdet", ["C08"], [(TB, "            outputs, logabsdet = func(outputs, context)\n            total_logabsdet += logabsdet", "            outputs, _ = func(outputs, context)")], "CMP-THREAD"),
+    ("c08-cascade-not-threaded", ["C08"], [(TB, "            outputs, logabsdet = func(outputs, context)\n            total_logabsdet += logabsdet", "            outputs, logabsdet = func(inputs, context)\n            total_logabsdet += logabsdet")], "CMP-THREAD"),
+    ("c08-cascade-minus", ["C08"], [(TB, "            total_logabsdet += logabsdet\n        return outputs, total_logabsdet", "            total_logabsdet -= logabsdet\n        return outputs, total_logabsdet")], "CMP-THREAD"),
+    ("c08-inverse-not-reversed", ["C08"], [(TB, "funcs = (transform.inverse for transform in self._transforms[::-1])", "funcs = (transform.inverse for transform in self._transforms)")], "CMP-ORDER"),
+    ("c08-inverse-forward-parts", ["C08"], [(TB, "funcs = (transform.inverse for transform in self._transforms[::-1])", "funcs = (transform for transform in self._transforms[::-1])")], "CMP-ORDER"),
+    ("c08-forward-reversed", ["C08"], [(TB, "        funcs = self._transforms\n        return self._cascade(inputs, funcs, context)", "        funcs = self._transforms[::-1]\n        return self._cascade(inputs, funcs, context)")], "CMP-ORDER"),
+    ("c08-swap-broken", ["C08"], [(TB, "        return self._transform.inverse(inputs, context)\n\n    def inverse(self, inputs, context=None):\n        return self._transform(inputs, context)", "        return self._transform.inverse(inputs, context)\n\n    def inverse(self, inputs, context=None):\n        return self._transform.inverse(inputs, context)")], "CMP-SWAP"),
+    ("c08-swap-drop-context", ["C08"], [(TB, "        return self._transform.inverse(inputs, context)\n\n    def inverse(self, inputs, context=None):", "        return self._transform.inverse(inputs)\n\n    def inverse(self, inputs, context=None):")], "CMP-SWAP"),
+    ("c08-ms-cat-order", ["C08"], [(TB, "tmp_concat_inputs = torch.cat([input_chunk, hiddens], dim=self._split_dim)", "tmp_concat_inputs = torch.cat([hiddens, input_chunk], dim=self._split_dim)")], "MS-SPLIT"),
+    ("c08-ms-output-floor", ["C08"], [(TB, "            output_shape[self._split_dim - 1] = (\n                output_shape[self._split_dim - 1] + 1\n            ) // 2", "            output_shape[self._split_dim - 1] = (\n                output_shape[self._split_dim - 1]\n            ) // 2")], "MS-SPLIT"),
+    ("c08-ms-index-off-by-one", ["C08"], [(TB, "            hidden_shape[self._split_dim - 1] = hidden_shape[self._split_dim - 1] // 2", "            hidden_shape[self._split_dim] = hidden_shape[self._split_dim] // 2")], "MS-SPLIT"),
+    ("c08-ms-lost-last-logdet", ["C08"], [(TB, "        hiddens, logabsdet = rev_inv_transforms[0](rev_split_inputs[0], context)\n        total_logabsdet += logabsdet", "        hiddens, logabsdet = rev_inv_transforms[0](rev_split_inputs[0], context)")], "MS-SPLIT"),
+    ("c08-ms-pieces-not-reversed", ["C08"], [(TB, "        rev_split_inputs = split_inputs[::-1]", "        rev_split_inputs = split_inputs")], "MS-SPLIT"),
+    ("c08-ms-cat-dim", ["C08"], [(TB, "tmp_concat_inputs = torch.cat([input_chunk, hiddens], dim=self._split_dim)", "tmp_concat_inputs = torch.cat([input_chunk, hiddens], dim=1)")], "MS-SPLIT"),
+    ("c08-ms-chunk-dim", ["C08"], [(TB, "                    transform_outputs, chunks=2, dim=self._split_dim\n", "                    transform_outputs, chunks=2, dim=self._split_dim - 1\n")], "MS-SPLIT"),
+    ("c08-ms-carry-first-chunk", ["C08"], [(TB, "                outputs, hiddens = torch.chunk(", "                hiddens, outputs = torch.chunk(")], "MS-SPLIT"),
+    ("c08-ms-shapes-twice", ["C08"], [(TB, "        self._output_shapes.append(output_shape)\n        return hidden_shape", "        self._output_shapes.append(output_shape)\n        if hidden_shape is None:\n            self._output_shapes.append(output_shape)\n        return hidden_shape")], "MS-STATE"),
+    ("c08-ms-forward-logdet", ["C08"], [(TB, "            all_outputs.append(outputs.reshape(batch_size, -1))\n            total_logabsdet += logabsdet", "            all_outputs.append(outputs.reshape(batch_size, -1))\n            total_logabsdet = logabsdet")], "MS-SPLIT"),
+]
+
 BENIGN = [
     ("b-c06-rename-local", ["C06"], [(MADE1, "        prev_out_degrees = self.initial_layer.degrees\n        for _ in range(num_blocks):", "        prev_out_degrees = self.initial_layer.degrees\n        for _blk in range(num_blocks):")]),
     ("b-c06-guard-form", ["C06"], [(MADE1, "if torch.all(self.degrees >= in_degrees).item() != 1:", "if not torch.all(in_degrees <= self.degrees):")]),
@@ -214,5 +237,9 @@ BENIGN = [
     ("b-c04-repeat-interleave", ["C04", "C18"], [(FB, "            embedded_context = torchutils.repeat_rows(\n                embedded_context, num_reps=num_samples\n            )\n\n        samples, logabsdet", "            embedded_context = embedded_context.repeat_interleave(num_samples, dim=0)\n\n        samples, logabsdet")]),
     ("b-c18-cat-branch", ["C18"], [(DB, "            return torch.cat(samples, dim=0 if context is None else 1)", "            if context is None:\n                return torch.cat(samples, dim=0)\n            return torch.cat(samples, dim=1)")]),
     ("b-c05-none-guard-form", ["C05"], [(MADE2, "            num_rows = num_samples if context is None else context.shape[0]", "            if context is None:\n                num_rows = num_samples\n            else:\n                num_rows = context.shape[0]")]),
+    ("b-c08-reversed-builtin", ["C08"], [(TB, "funcs = (transform.inverse for transform in self._transforms[::-1])", "funcs = [t.inverse for t in reversed(self._transforms)]")]),
+    ("b-c08-accumulate-spelling", ["C08"], [(TB, "            total_logabsdet += logabsdet\n        return outputs, total_logabsdet", "            total_logabsdet = logabsdet + total_logabsdet\n        return outputs, total_logabsdet")]),
+    ("b-c08-ms-rename-locals", ["C08"], [(TB, "        rev_split_inputs = split_inputs[::-1]", "        pieces_rev = split_inputs[::-1]"), (TB, "        hiddens, logabsdet = rev_inv_transforms[0](rev_split_inputs[0], context)", "        hiddens, logabsdet = rev_inv_transforms[0](pieces_rev[0], context)"), (TB, "            rev_inv_transforms[1:], rev_split_inputs[1:]", "            rev_inv_transforms[1:], pieces_rev[1:]")]),
+    ("b-c08-ms-ceil-spelling", ["C08"], [(TB, "            output_shape[self._split_dim - 1] = (\n                output_shape[self._split_dim - 1] + 1\n            ) // 2", "            output_shape[self._split_dim - 1] = output_shape[self._split_dim - 1] - output_shape[self._split_dim - 1] // 2")]),
     ("b-c14-guard-order", ["C14"], [(NORM, "if self.training and not self.initialized:", "if not self.initialized and self.training:")]),
 ]
